@@ -1258,8 +1258,14 @@ where
                 ))
             })
             .collect::<Vec<_>>();
+        // The generated code names these types, so a different choice of either must not be
+        // mistaken for an unchanged configuration.
+        let storaget = type_name::<StorageT>();
+        let lexertypest = type_name::<LexerTypesT>();
         let cache_info = quote! {
             BUILD_TIME = #build_time
+            STORAGE_T = #storaget
+            LEXER_TYPES_T = #lexertypest
             DERIVED_MOD_NAME = #derived_mod_name
             ENCODING_CONFIG = #serialisation_format
             GRAMMAR_PATH = #grammar_path
